@@ -201,7 +201,7 @@ def run_longmsg(ctx, pt):
 def equal_word_kats():
     import json, os
     p = os.path.join(os.path.dirname(os.path.dirname(os.path.dirname(os.path.abspath(__file__)))), 'kats', 'stream_equal_words.json')
-    return json.load(open(p))
+    return json.load(open(p)) if os.path.exists(p) else []
 
 
 def pts_eqwords(tier):
